@@ -218,6 +218,9 @@ theorem C14_validate_data_masked (nodes values : List Int) (m : Option (List Boo
 example : validateDataLineage [1, 2, 3] [10, 10, 0] (some [false, false, true]) [(1, 2)] = .ok := by decide
 example : validateDataLineage [1, 2, 3] [10, 10, 0] none [(1, 2), (2, 3)] ≠ .ok := by decide
 example : validateDataLineage [1, 2, 3] [10, 10, 0] (some [false, true]) [(1, 2)] = .indexError := by decide
+-- numpy accepts a boolean mask of length 0 against an array of any length: it selects nothing
+example : validateDataLineage [4] [3] (some []) [] = .ok := by decide
+example : validateDataLineage [1, 2] [7, 7] (some []) [(1, 2)] = .ok := by decide   -- no node carries an id: nothing to check
 example : ∀ x ∈ [(9223372036854775809 : Int), 18446744073709551615], InUInt64 x := by decide
 
 end GeffProps.C14
